@@ -81,6 +81,36 @@ fn iterate(bytes: Vec<u8>, schedule: Vec<usize>, fail_at: Option<usize>) -> Resu
     Ok((rows, consumed))
 }
 
+/// like `iterate`, but keeps the rows handed out before an error: (rows, bytes consumed at each hand-out, error)
+fn iterate_partial(bytes: Vec<u8>, schedule: Vec<usize>, fail_at: Option<usize>) -> (Vec<Dict>, Vec<usize>, Option<String>) {
+    let mut rd = ScheduledReader { data: bytes, pos: 0, schedule, step: 0, fail_at, consumed_log: vec![] };
+    let rd_ptr: *const ScheduledReader = &rd;
+    let mut rows = Vec::new();
+    let mut consumed = Vec::new();
+    let mut p = match Parser::make(&mut rd) {
+        Ok(p) => p,
+        Err(e) => return (rows, consumed, Some(e.to_string())),
+    };
+    let it = match parse_grid_iterator(&mut p) {
+        Ok(it) => it,
+        Err(e) => return (rows, consumed, Some(e.to_string())),
+    };
+    for r in it {
+        match r {
+            Ok(row) => {
+                // SAFETY: only reads the position counter of the reader the parser borrows; single-threaded
+                consumed.push(unsafe { (*rd_ptr).pos });
+                rows.push(row);
+            }
+            Err(e) => return (rows, consumed, Some(e.to_string())),
+        }
+        if rows.len() > 1_000_000 {
+            return (rows, consumed, Some("row iterator does not stop".into()));
+        }
+    }
+    (rows, consumed, None)
+}
+
 fn val_json(r: &Result<Result<Value, String>, String>) -> J {
     let (o, m) = outcome_of(r);
     let back = match r {
@@ -131,6 +161,15 @@ pub fn worker_handle(req: &J) -> J {
             match &r {
                 Ok(Ok((rows, consumed))) => json!({"outcome":o,"msg":m,"rows":rows.iter().map(tags).collect::<Vec<J>>(),"consumed":consumed}),
                 _ => json!({"outcome":o,"msg":m,"rows":[],"consumed":[]}),
+            }
+        }
+        "zinc.iter.partial" => {
+            let (s, f) = sched_from(req);
+            match guarded(|| -> Result<_, String> { Ok(iterate_partial(bytes.clone(), s, f)) }) {
+                Ok(Ok((rows, consumed, err))) => json!({"outcome": if err.is_none() { "ok" } else { "err" }, "msg": crate::util::short(&err.unwrap_or_default()),
+                                                        "rows": rows.iter().map(tags).collect::<Vec<J>>(), "consumed": consumed}),
+                Ok(Err(m)) => json!({"outcome":"err","msg":m,"rows":[],"consumed":[]}),
+                Err(p) => json!({"outcome":"panic","msg":crate::util::short(&p),"rows":[],"consumed":[]}),
             }
         }
         "json.from_slice" => val_json(&guarded(|| serde_json::from_slice::<Value>(&bytes).map_err(|e| e.to_string()))),
@@ -391,6 +430,31 @@ pub fn run(vec: &J, out: &mut Out, wk: &mut Worker) -> Result<(), String> {
         }
         "dec.sched" => {
             out.emit(sched_event(wk, vec)?);
+            Ok(())
+        }
+        "dec.stream" => {
+            // a terminal state of MC_ZincStream: the grid body is put behind a four-column header and pulled through the
+            // real lazy iterator under four reader schedules (and the model's failure offset)
+            let body = bytes_from(&vec["body"]);
+            let header = b"ver:\"3.0\"\na,b,c,d\n";
+            let mut text = header.to_vec();
+            text.extend_from_slice(&body);
+            let n = text.len();
+            let fail = vec["fail_at"].as_i64().unwrap_or(-1);
+            let fail_abs = if fail < 0 { -1 } else { fail + header.len() as i64 };
+            let scheds: Vec<(&str, Vec<usize>)> = vec![
+                ("bytes", vec![1; n + 2]),
+                ("interrupted", (0..3 * n + 6).map(|i| if i % 3 == 2 { 1 } else { 0 }).collect()),
+                ("pairs", vec![2; n + 2]),
+                ("whole", vec![n + 7]),
+            ];
+            let mut runs = Vec::new();
+            for (name, s) in scheds {
+                let r = wk.call_or(&json!({"w":"zinc.iter.partial","bytes":bytes_json(&text),"schedule":s,"fail_at":fail_abs}), LIMIT_MS);
+                runs.push(json!({"schedule":name,"outcome":r["outcome"],"msg":r["msg"],"rows":r["rows"],"consumed":r["consumed"]}));
+            }
+            out.emit(json!({"op":"dec.stream","body":vec["body"],"fail_at":fail,"hdr":header.len(),"merr":vec["merr"],"mrows":vec["mrows"],
+                            "myield":vec["myield"],"mref":vec["mref"],"runs":runs}));
             Ok(())
         }
         _ => Err(format!("unknown op {op}")),
